@@ -52,6 +52,173 @@ def int_range(ty):
     return (0, 2 ** bits - 1) if m.group(1) == "u" else (-2 ** (bits - 1), 2 ** (bits - 1) - 1)
 
 
+# ---- floats (f32 / f64 fields): exact reference rounding, independent of the model ----------------------------------
+import struct
+from fractions import Fraction
+
+FLOAT_RE = re.compile(r"^([+-]?)(?:(inf|infinity|nan)|((?:[0-9]+\.?[0-9]*|\.[0-9]+))(?:[eE]([+-]?[0-9]+))?)$", re.ASCII | re.IGNORECASE)
+FMT = {32: (24, 8, "<f", "<I"), 64: (53, 11, "<d", "<Q")}
+
+
+def _bits_to_frac(bits, nbits):
+    """exact value of a finite non-negative float given by its bit pattern"""
+    p, eb, _, _ = FMT[nbits]
+    e, m = bits >> (p - 1), bits & ((1 << (p - 1)) - 1)
+    bias = (1 << (eb - 1)) - 1
+    if e == 0:
+        return Fraction(m, 1 << (bias - 1 + p - 1))
+    return Fraction((1 << (p - 1)) + m) * Fraction(2) ** (e - bias - (p - 1))
+
+
+def py_float_bits(text, nbits):
+    """bit pattern `str::parse::<fN>` must return for `text` (nearest representable value, ties to even), or None.
+    Candidates come from CPython's correctly rounded float(); the decision between neighbours is exact (Fractions)."""
+    m = FLOAT_RE.match(text)
+    if not m:
+        return None
+    p, eb, ffmt, ifmt = FMT[nbits]
+    sign = (1 << (nbits - 1)) if m.group(1) == "-" else 0
+    inf = ((1 << eb) - 1) << (p - 1)
+    if m.group(2):
+        return sign + (inf if m.group(2).lower() != "nan" else inf + (1 << (p - 2)))
+    digits, exp = m.group(3), int(m.group(4) or "0")
+    ip, _, fp = digits.partition(".")
+    mant = int((ip + fp) or "0")
+    if mant == 0:
+        return sign
+    e10 = exp - len(fp)
+    mag = e10 + len(str(mant))
+    if mag > 400:
+        return sign + inf
+    if mag < -400:
+        return sign
+    x = Fraction(mant) * Fraction(10) ** e10
+    try:
+        approx = float(x)                                    # Fraction -> float is correctly rounded in CPython
+    except OverflowError:
+        approx = float("inf")
+    if nbits == 64:
+        start = inf if approx == float("inf") else struct.unpack("<Q", struct.pack("<d", approx))[0]
+    else:
+        try:
+            start = struct.unpack("<I", struct.pack("<f", approx))[0]
+        except OverflowError:
+            start = inf
+    best = None
+    for c in range(max(0, start - 2), min(inf, start + 2) + 1):
+        # the value standing for "infinity" in the comparison is 2^(emax+1): the first value beyond the finite range
+        v = _bits_to_frac(c, nbits) if c < inf else Fraction(2) ** (1 << (eb - 1))
+        d = abs(v - x)
+        if best is None or d < best[0] or (d == best[0] and c % 2 == 0 and best[1] % 2 == 1):
+            best = (d, c)
+    return sign + best[1]
+
+
+FLOAT_SPECIALS = ["inf", "Inf", "INF", "infinity", "Infinity", "iNfInItY", "nan", "NaN", "NAN", "0", "-0", "+0", "0.0", "-0.0", "0e0", "0e999999",
+                  "1e999999", "1e-999999", "000001", "1.", ".5", "5.e3", "1e+5", "1E-5", "1e05", "0.000000000000000000000000000000000000000000001",
+                  "3.4028235e38", "3.4028236e38", "3.40282357e38", "3.4028235677973366e38", "3.4028235677973367e38", "1.7976931348623157e308",
+                  "1.7976931348623158e308", "1.7976931348623159e308", "2e308", "4.9e-324", "2.4703282292062327e-324", "2.4703282292062328e-324",
+                  "2.5e-324", "1e-45", "7e-46", "7.1e-46", "1.17549435e-38", "1.1754942e-38", "2.2250738585072014e-308", "2.2250738585072011e-308",
+                  "9007199254740993", "9007199254740992.5", "16777217", "16777217.0000001", "16777216.999999", "0.1", "0.2", "0.3", "1.1", "123456789012345678901234567890"]
+FLOAT_BAD = ["", "+", "-", ".", "e5", "1e", "1e+", "1e-", "1_0", "0x10", " 1", "1 ", "+-1", "1.2.3", "1e1.5", "1,5", "infinit", "in", "nane", "--1", "1f", "1.0f32",
+             "١", "1e١", "∞", "+ 1", "1e 5", "NaN()", "-+1", "1.e", "1ee1"]
+
+
+def gen_float_text(rng, nbits):
+    r = rng.random()
+    p, eb, ffmt, ifmt = FMT[nbits]
+    if r < 0.12:
+        return rng.choice(FLOAT_SPECIALS)
+    if r < 0.24:
+        t = rng.choice(FLOAT_BAD)
+        return t
+    if r < 0.34:
+        # shortest representation of a random value
+        bits = rng.getrandbits(nbits - 1)
+        v = struct.unpack(ffmt, struct.pack(ifmt, bits))[0]
+        if v != v or v in (float("inf"),):
+            return "1.5"
+        return repr(v) if nbits == 64 else ("%.9g" % v)
+    if r < 0.74:
+        # just beside the midpoint between two neighbours: the decimal expansion of the midpoint is finite; nudge its tail
+        inf = ((1 << eb) - 1) << (p - 1)
+        if rng.random() < 0.7:
+            e = rng.randrange(max(1, ((1 << (eb - 1)) - 1) - 40), ((1 << (eb - 1)) - 1) + 40)    # moderate exponents: short expansions
+        else:
+            e = rng.choice([0, 1, 2, (1 << eb) - 2, (1 << eb) - 3, rng.randrange(0, (1 << eb) - 1)])
+        bits = (e << (p - 1)) + rng.choice([0, 1, (1 << (p - 1)) - 1, (1 << (p - 1)) - 2, rng.getrandbits(p - 1)])
+        bits = min(bits, inf - 1)
+        lo = _bits_to_frac(bits, nbits)
+        hi = _bits_to_frac(bits + 1, nbits) if bits + 1 < inf else Fraction(2) ** (1 << (eb - 1))
+        mid = (lo + hi) / 2
+        if mid == 0:
+            return "0"
+        # exact decimal expansion of mid = n / 2^k
+        n, d = mid.numerator, mid.denominator
+        k = d.bit_length() - 1
+        digits = str(n * 5 ** k)                       # mid = digits * 10^-k
+        if len(digits) > 420:
+            digits, k = digits[:420], k - (len(digits) - 420)
+        how = rng.random()
+        if how < 0.3:
+            text_digits = digits                         # the exact tie
+        elif how < 0.65:
+            text_digits = digits + "0" * rng.randrange(0, 4) + "1"     # just above
+            k += len(text_digits) - len(digits)
+        else:
+            text_digits = str(int(digits) * 10 ** 3 - 1)               # just below
+            k += 3
+        style = rng.random()
+        if style < 0.5 and 0 < k < len(text_digits) + 30:
+            if k >= len(text_digits):
+                return "0." + "0" * (k - len(text_digits)) + text_digits
+            return text_digits[:-k] + "." + text_digits[-k:]
+        return text_digits + ("e" if rng.random() < 0.5 else "E") + str(-k)
+    if r < 0.9:
+        ip = str(rng.randrange(0, 10 ** rng.randrange(1, 25)))
+        fp = "".join(rng.choice("0123456789") for _ in range(rng.randrange(0, 25)))
+        ex = rng.choice(["", "", "e%d" % rng.randrange(-60, 60), "E%+d" % rng.randrange(-340, 330), "e-%d" % rng.randrange(300, 345)])
+        return rng.choice(["", "", "-", "+"]) + ip + ("." + fp if fp or rng.random() < 0.2 else "") + ex
+    return rng.choice(["-", "+", ""]) + gen_float_text(rng, nbits).lstrip("+-")
+
+
+def gen_pfloat(rng):
+    nbits = rng.choice([32, 32, 64])
+    where = rng.choice(["path", "path", "query"])
+    text = gen_float_text(rng, nbits)
+    raw = bytearray()
+    for b in text.encode("utf-8"):
+        safe = (48 <= b <= 57) or (65 <= b <= 90) or (97 <= b <= 122) or b in b"-._~" or (b == 43 and where == "path")
+        if not safe or rng.random() < 0.06:
+            raw += b"%%%02X" % b if rng.random() < 0.5 else b"%%%02x" % b
+        else:
+            raw.append(b)
+    if rng.random() < 0.03:
+        raw += rng.choice([b"%ff", b"%C3", b"%80"])
+    if where == "path" and not raw:
+        raw = bytearray(b"%2B")
+    return {"op": "pfloat", "where": where, "bits": nbits, "raw": list(raw)}
+
+
+def oracle_pfloat(case, out):
+    raw = bytes(case["raw"])
+    dec = urllib.parse.unquote_to_bytes(raw.replace(b"+", b" ") if case["where"] == "query" else raw)
+    try:
+        text = dec.decode("utf-8")
+    except UnicodeDecodeError:
+        if case["where"] == "query":
+            return None          # lossy decoding of query values is the recorded finding C15-lossy-utf8-query-form; not judged here
+        return None if out.get("kind") == "invalid-utf8" else "a float parameter that is not UTF-8 after decoding must be rejected as invalid UTF-8, got %r" % (out,)
+    want = py_float_bits(text, case["bits"])
+    if want is None:
+        return None if out.get("r") == "err" and out.get("kind") == "parse" else "%r is not a float literal and must be a parse error, got %r" % (text, out)
+    if out.get("r") != "ok":
+        return "%r is a float literal (nearest f%d has bits %d) but extraction failed: %r" % (text, case["bits"], want, out)
+    if str(out.get("fbits")) != str(want):
+        return "f%d field: the client encoded %r, the nearest representable value has bits %d, the application was handed bits %s" % (case["bits"], text, want, out.get("fbits"))
+    return None
+
+
 # ---- independent semantics (Python stdlib) --------------------------------------------------------
 
 def py_scalar(ty, raw):
@@ -224,6 +391,8 @@ def oracle_form(case, out, bs, detail):
 
 
 def oracle(case, out):
+    if case.get("op") == "pfloat":
+        return oracle_pfloat(case, out)
     op = case.get("op")
     r = out.get("r")
     if r in ("panic", "unparseable", "bad-op", "buffer-failed", "bad-route") or "bad-json" in out:
@@ -808,6 +977,8 @@ def gen_small(rng):
 
 def gen(rng):
     r = rng.random()
+    if r < 0.08:
+        return gen_pfloat(rng)
     if r < 0.3:
         return gen_path(rng)
     if r < 0.55:
@@ -829,6 +1000,8 @@ def nontrivial(case, out):
         return out.get("r") in ("ok", "err") and (b"%" in raw or b"+" in raw or any(c >= 128 for c in raw) or out.get("r") == "err")
     if op == "scalar":
         return len(case["b"]) > 0
+    if op == "pfloat":
+        return len(case["raw"]) > 3
     if op in ("pdec", "fparse"):
         return 37 in case["b"] or 43 in case["b"]
     if op == "ct":
@@ -840,7 +1013,7 @@ def nontrivial(case, out):
 
 def mutate(rng, c):
     c = json.loads(json.dumps(c))
-    for k in ("path", "q", "body", "b"):
+    for k in ("path", "q", "body", "b", "raw"):
         if k in c:
             c[k] = list(mutate_bytes(rng, bytes(c[k])))
     return c
@@ -850,7 +1023,7 @@ def run(R):
     R.assumptions += [
         "64-bit little-endian target; `FromStr` for integers/bool/char of the installed Rust toolchain (modelled, validated by the `scalar` correspondence)",
         "percent-encoding 2.3.2, form_urlencoded 1.2.2, serde_html_form 0.2.8, serde/serde_derive struct visitors, matchit 0.9.0 (single route, whole-segment parameters), http 1.4 `Uri` byte classes: modelled, validated by this correspondence only",
-        "floats are outside the supported subset of the model (f32/f64 fields are not generated)",
+        "f32 / f64 fields: `str::parse::<fN>` (core::num::dec2flt) is modelled by its contract (Pxv/Model/Float.lean: grammar + nearest representable value, ties to even, computed exactly) and validated by the `pfloat` correspondence; JSON numbers read into floats (serde_json's own parser) are not generated",
     ]
     R.notes.append("JsonBody: the Content-Type gate is modelled and diffed (op `ct`); serde_json parsing is NOT modelled in Lean and is covered by the "
                    "Python-json oracle only (coverage.json_oracle_only). Known finding C15-lossy-utf8-query-form: query/form extraction replaces invalid UTF-8 "
